@@ -86,7 +86,7 @@ Proof. unfold md3_label. intros -> ->. reflexivity. Qed.
 Definition lab_rows (s : state) (cols : list Z) (c : bool) : list lrow := m_rows s ++ [mk_lrow cols c].
 Definition lab_drift (p : params) (s : state) (rows : list lrow) : dstate :=
   if (p_sens p * r_acc_std (m_ref s)) <? (r_acc (m_ref s) - label_accuracy rows) then DDrift else DNone.
-Definition lab_ocols (rows : list lrow) : list Z := match rows with r :: _ => l_cols r | [] => [] end.
+Definition lab_ocols (s : state) : list Z := m_feat s ++ m_targ s.
 
 Definition collect_state (s : state) (cols : list Z) (c : bool) : state :=
   mk_state (m_wait s) (lab_rows s cols c) (m_req s) (m_len s) (m_ref s) (m_ff s) (m_md s)
@@ -96,16 +96,16 @@ Definition resolve_state (p : params) (s : state) (cols : list Z) (c : bool) (st
   let rows := lab_rows s cols c in
   let target := hd 0%Z (m_targ s) in
   mk_state false [] (m_req s) (zlen rows) st (fofZ (zlen rows - 1) / fofZ (zlen rows)) (r_md st)
-           (filter (fun x => negb (x =? target)%Z) (lab_ocols rows))
-           (filter (fun x => (x =? target)%Z) (lab_ocols rows))
+           (filter (fun x => negb (x =? target)%Z) (lab_ocols s))
+           (filter (fun x => (x =? target)%Z) (lab_ocols s))
            (lab_drift p s rows) (m_total s) (m_since s).
 
 Definition crash_state (p : params) (s : state) (cols : list Z) (c : bool) : state :=
   let rows := lab_rows s cols c in
   let target := hd 0%Z (m_targ s) in
   mk_state (m_wait s) rows (m_req s) (m_len s) (m_ref s) (m_ff s) (m_md s)
-           (filter (fun x => negb (x =? target)%Z) (lab_ocols rows))
-           (filter (fun x => (x =? target)%Z) (lab_ocols rows))
+           (filter (fun x => negb (x =? target)%Z) (lab_ocols s))
+           (filter (fun x => (x =? target)%Z) (lab_ocols s))
            (lab_drift p s rows) (m_total s) (m_since s).
 
 Lemma label_accepted_cases (p : params) (s : state) cols c st :
